@@ -289,6 +289,7 @@ func (s *Stream) startConsume(consumer Consumer, packetType PacketType, extra st
 		Flow:       stats.NewFlow(),
 		maxQLen:    1000,
 	}
+	verifInitConsumption(c)
 
 	c.logger = s.logger.With(xlog.Fields(
 		xlog.F("cid", uint32(c.cid)),
